@@ -469,15 +469,15 @@ fn gen_wrap_case(rng: &mut Rng) -> Vec<i64> {
     let exact_fit = rng.chance(1, 4);
     let dir = rng.below(4) as i64;
     let wrap = match rng.below(8) {
-        0 => 0,
+        0 if !exact_fit => 0,
         1 | 2 => 2,
         _ => 1,
     };
-    let n = 1 + rng.below(8) as usize;
+    let n = if exact_fit { 2 + rng.below(7) as usize } else { 1 + rng.below(8) as usize };
     let mut ct = WCont::plain(dir, wrap, 0.0, 0.0);
     ct.justify = if rng.chance(1, 3) { -1 } else { rng.below(9) as i64 };
     ct.align_content = if rng.chance(1, 2) { 0 } else if rng.chance(1, 4) { -1 } else { rng.below(9) as i64 };
-    ct.align_items = if rng.chance(3, 5) { 0 } else if rng.chance(1, 3) { -1 } else { rng.below(6) as i64 };
+    ct.align_items = if exact_fit || rng.chance(3, 5) { 0 } else if rng.chance(1, 3) { -1 } else { rng.below(6) as i64 };
     ct.cross = if rng.chance(7, 10) { Some(len(rng, tenths, 250)) } else { None };
     if rng.chance(1, 2) {
         ct.gap_m = len(rng, tenths, 12);
@@ -497,7 +497,7 @@ fn gen_wrap_case(rng: &mut Rng) -> Vec<i64> {
         let mut it = WItem::plain(0.0);
         let small = rng.chance(1, 6);
         let mut dimv = |rng: &mut Rng| if small { len(rng, tenths, 3) } else { len(rng, tenths, 120) };
-        if exact_fit && rng.chance(4, 5) {
+        if exact_fit {
             // plain item: hypothetical outer size = flex basis (min 0, no max, no padding, no margin)
             it.basis = Some(if rng.chance(1, 8) { 0.0 } else { rng.below(60) as f32 });
             it.size_c = Some(1.0 + len(rng, tenths, 40));
@@ -566,7 +566,7 @@ fn gen_wrap_case(rng: &mut Rng) -> Vec<i64> {
     }
     if exact_fit {
         // the first k items fill the line exactly (when they are all plain): the break test must be `>`, not `>=`
-        let k = 1 + rng.below(n as u64) as usize;
+        let k = if rng.chance(1, 6) { 1 } else { 2 + rng.below(n as u64 - 1) as usize };
         let sum: f32 = items[..k].iter().map(|it| it.basis.unwrap_or(it.size_m.unwrap_or(0.0))).sum::<f32>() + ct.gap_m * (k as f32 - 1.0);
         ct.main = sum;
     } else {
